@@ -3,4 +3,5 @@ pub mod iso;
 pub mod refiri;
 pub mod refnq;
 pub mod refrdfc;
+pub mod refsparql;
 pub mod terms;
